@@ -417,9 +417,103 @@ def ins_proposal_worker(cfg):
     return dict(label=runs.cfg_key(cfg), errs=errs, rejected=res.get("rejected_up_front"), n=res["iterations"])
 
 
+BATCH_SIZES = [1, 2, 1000, 1001, 49_999, 50_001, 99_999, 100_001, 130_003, 262_145]
+
+
+def _rows(N):
+    """Rows of an N-row call that are re-evaluated alone: both ends, the middle and both sides of every
+    round multiple of 1000 x 2^k that an implementation may cut a batch at."""
+    marks = {0, 1, 2, N // 2, N - 3, N - 2, N - 1}
+    for b in (1000, 2000, 4096, 10_000, 16_384, 50_000, 65_536, 100_000, 131_072, 200_000, 250_000):
+        marks |= {b - 1, b, b + 1}
+    return sorted(i for i in marks if 0 <= i < N)
+
+
+def batch_worker(cfg):
+    """The density attached to a point does not depend on how many other points are evaluated in
+    the same call (an implementation is free to cut a large call into batches)."""
+    import torch
+    from nessai.livepoint import numpy_array_to_live_points
+
+    runs.reset_globals()
+    errs = []
+    label = f"batch:{cfg['kind']}"
+    out = runs.scratch("c08b")
+    n = 0
+    try:
+        torch.manual_seed(3)
+        np.random.seed(3)
+        rng_ = np.random.default_rng(11)
+        if cfg["kind"] == "ins":
+            from nessai.flowsampler import FlowSampler
+
+            model = make("G2")
+            fs = FlowSampler(model, output=out, resume=False, **runs.ins_base(cfg["seed"], max_iteration=2))
+            fs.run(plot=False, save=False)
+            prop = fs.ns.proposal
+
+            def evaluate(u):
+                pts = numpy_array_to_live_points(u, model.names)
+                logQ, log_q = prop.compute_meta_proposal_samples(pts)
+                return np.column_stack([logQ, log_q])
+
+            def draw(N):
+                return rng_.random((N, 2)) * 0.98 + 0.01
+        else:
+            from nessai.proposal.flowproposal import FlowProposal
+
+            model = make("G2")
+            prop = FlowProposal(model, output=out, poolsize=50, plot=False, flow_config=dict(runs.FLOW_TINY, n_neurons=8), training_config=dict(runs.TRAIN_TINY))
+            prop.initialise()
+            live = model.new_point(100)
+            live["logP"] = model.log_prior(live)
+            live["logL"] = model.log_likelihood(live)
+            prop.train(live, plot=False)
+
+            def evaluate(x):
+                pts = numpy_array_to_live_points(x, model.names)
+                z, log_q = prop.forward_pass(pts, rescale=True, compute_radius=False)
+                return np.column_stack([log_q, z])
+
+            def draw(N):
+                return rng_.random((N, 2)) * 9.0 - 4.5
+        for N in BATCH_SIZES if not cfg.get("quick") else [s_ for s_ in BATCH_SIZES if s_ in (1, 1001, 100_001, 130_003)]:
+            x = draw(N)
+            x0 = x.tobytes()
+            full = evaluate(x)
+            if x.tobytes() != x0:
+                errs.append((f"evaluation-modifies-its-input:{label}", f"N={N}"))
+            n += 1
+            if full.shape[0] != N:
+                errs.append((f"one-density-per-point:{label}", f"N={N}: {full.shape[0]} rows"))
+                continue
+            idx = _rows(N)
+            alone = np.concatenate([evaluate(x[i : i + 1].copy()) for i in idx[:: max(1, len(idx) // 24)]] , axis=0)
+            few = evaluate(x[idx].copy())
+            pick = idx[:: max(1, len(idx) // 24)]
+            for name, ref, rows in (("alone", alone, pick), ("in-a-small-call", few, idx)):
+                a, b = full[rows], ref
+                with np.errstate(invalid="ignore"):
+                    bad = ~((a == b) | (np.abs(a - b) <= 2e-4 * (1 + np.abs(b))))
+                if bad.any():
+                    r = int(np.argwhere(bad)[0][0])
+                    errs.append((f"density-of-a-point-depends-on-the-size-of-the-call:{label}", f"N={N}, row {rows[r]}: {a[r].tolist()} in the full call vs {b[r].tolist()} {name}"))
+                    break
+    except Exception as e:
+        errs.append((f"harness-or-library-raises-{type(e).__name__}:{label}", str(e)[:300]))
+    finally:
+        shutil.rmtree(out, ignore_errors=True)
+    seen, viol = set(), []
+    for k, dd_ in errs:
+        if k not in seen:
+            seen.add(k)
+            viol.append((k, dd_, {"mode": "batch", "cfg": cfg}))
+    return dict(label=label, errs=viol, rejected=None, n=n)
+
+
 def _dispatch(x):
     kind, cfg = x
-    return {"flow": flow_worker, "proposal": proposal_worker, "ins": ins_proposal_worker}[kind](cfg)
+    return {"flow": flow_worker, "proposal": proposal_worker, "ins": ins_proposal_worker, "batch": batch_worker}[kind](cfg)
 
 
 def run(ctx):
@@ -432,6 +526,9 @@ def run(ctx):
     for mdl in ("G2cut", "G2tilt", "G2hole"):
         for rp in ("logit", None):
             items.append(("ins", {"kind": "ins", "model": mdl, "seed": ctx.seed, "kwargs": {"reparameterisation": rp, "max_iteration": 2}, "resume": "none"}))
+    # the density of a point does not depend on the number of points in the call (1 ... 262 145)
+    items.append(("batch", {"kind": "ins", "seed": ctx.seed, "quick": ctx.quick}))
+    items.append(("batch", {"kind": "std", "seed": ctx.seed, "quick": ctx.quick}))
     rejected = []
     labels = set()
     for (kind, cfg), res in ctx.pmap(_dispatch, items):
@@ -443,7 +540,7 @@ def run(ctx):
             ctx.violation(*v)
     ctx.set("distinct_nontrivial", len(labels))
     ctx.set("rejected_up_front", rejected)
-    ctx.set("rule", "flow lattice: 21 single deviations of the flow configuration (type, linear transform, batch norm / actnorm, mask, net, base distribution, depth, activation) x dims {2,4} x dtype {float32,float64} x weight state {fresh, trained 5 epochs, reset_weights, reset_permutations} (thorough adds the 3x4x2 product of type x linear transform x batch norm); points: 7^d grid on [-3,3]^d + 64 own samples; 2-D quadrature on a 401x401 grid adapted to the flow's own samples. Proposal lattice: latent prior x reparameterisation x flow type for FlowProposal; logit/None x flow type for the importance proposal, plus models with a cut prior, a tilted hypercube prior and a zero-likelihood region. Distinct/non-trivial: distinct configurations")
+    ctx.set("rule", "flow lattice: 21 single deviations of the flow configuration (type, linear transform, batch norm / actnorm, mask, net, base distribution, depth, activation) x dims {2,4} x dtype {float32,float64} x weight state {fresh, trained 5 epochs, reset_weights, reset_permutations} (thorough adds the 3x4x2 product of type x linear transform x batch norm); points: 7^d grid on [-3,3]^d + 64 own samples; 2-D quadrature on a 401x401 grid adapted to the flow's own samples. Proposal lattice: latent prior x reparameterisation x flow type for FlowProposal; logit/None x flow type for the importance proposal, plus models with a cut prior, a tilted hypercube prior and a zero-likelihood region. Call-size invariance: both proposals evaluate calls of 1 ... 262 145 points (quick: 1, 1001, 100 001, 130 003) and the rows at both ends, the middle and around every round batch boundary are re-evaluated alone and in a small call. Distinct/non-trivial: distinct configurations")
     ctx.set("exhaustive", True)
     ctx.sample({"flow": items[5][1]["flow"], "weights": items[5][1]["weights"], "dtype": items[5][1]["dtype"]})
     ctx.assume(
